@@ -78,6 +78,22 @@ theorem fmindex_extract_substr_exact {S : List Str} {L : List FM.Row} {d : FM.Di
             else some ((Spec.substrIds S p).map fun id => FM.symsOf (S[id - 1]?.getD []))) :=
   FM.extractSubstr_spec hv hd hS hml p hp hne
 
+/-- **No member contains the pattern: the result is empty** — `locateSubstr` yields no ID and `extractSubstr`
+returns the NULL iterator, with every read in bounds. -/
+theorem fmindex_absent_pattern_yields_nothing {S : List Str} {L : List FM.Row} {d : FM.Dict} (hv : validDict S = true)
+    (hd : FM.DictOK S L d) (hS : FM.BuiltS (FM.mkText S) L d.ix) (hml : ∀ s ∈ S, s.length < d.maxlength)
+    (p : Str) (hp : p.all validByte = true) (hne : p ≠ []) (hno : ∀ s ∈ S, isSubstr p s = false) :
+    d.locateSubstr p = some [] ∧ d.extractSubstr p = some none := by
+  have hnil : Spec.substrIds S p = [] := by
+    apply List.eq_nil_iff_forall_not_mem.mpr
+    intro id hid
+    obtain ⟨i, hi, _, hsub⟩ := (FM.mem_substrIds S p id).mp hid
+    rw [hno _ (List.getElem_mem hi)] at hsub
+    cases hsub
+  refine ⟨?_, ?_⟩
+  · rw [FM.locateSubstr_spec hv hd hS p hp hne, hnil]
+  · rw [FM.extractSubstr_spec hv hd hS hml p hp hne, hnil]; rfl
+
 /-- The sorted-and-deduplicated list of the model is what the duplicate-skipping iterator yields. -/
 theorem fmindex_dedup_is_the_iterator (l : List Nat) : FM.dedupAdj l = CSD.Dups.dedupAdj l := FM.dedupAdj_eq_dups l
 
